@@ -188,7 +188,13 @@ def check_c15(pid, tier):
             seen.add(p.label())
             upts.append(p)
     res1 = runner.run_pool(g1.g1_task, [(pid, p) for p in upts], chunks=4)
-    obs, crashes, trusted = _collect(res1 + res2)
+    # format mixin methods vs the codec / dict entry points on Self-typed and inherited shapes: every entry point
+    # is proved against the same reference, and every class-level unit call resolves to a unit the class owns
+    from . import g7
+
+    fpts = [g7.FPoint(m, mode, False, fs) for m in ("orjson", "msgpack", "toml", "dict") for mode in ("eager", "lazy") for fs in ("selfref", "selfsub")]
+    res3 = runner.run_pool(g7.g7_task, [(pid, p) for p in fpts], chunks=1)
+    obs, crashes, trusted = _collect(res1 + res2 + res3)
     from . import units
 
     obs += units.verify_oneshot(pid)
